@@ -203,6 +203,8 @@ class R:
                 extra.append("msg")
             if p["custom"]["query"]:
                 extra.append("query")
+            # the flag may also be written when the contract itself stays with Empty: the interface's responses are still converted
+            extra += [f for f in part.get("extra_flags", []) if f not in extra]
         s = part["module"]
         if part.get("as_name"):
             s += f" as {part['as_name']}"
@@ -276,7 +278,8 @@ class R:
             lines.append(f"    pub fn new({ptxt}) -> Self {{ svmon::note_new(); {ret} }}")
         elif nm != "none":
             val = f"{self.cid}(std::marker::PhantomData)" if self.gnames else self.cid
-            lines.append(f"    pub fn new() -> Self {{ svmon::note_new(); {val} }}")
+            note = "svmon::note_new_of(std::any::type_name::<Self>())" if self.gnames else "svmon::note_new()"
+            lines.append(f"    pub fn new() -> Self {{ {note}; {val} }}")
         between = sorted(p.get("impl_between", []), key=lambda x: x[0])
         for slot, h in enumerate(self._ordered(c)):
             while between and between[0][0] <= slot:
@@ -513,6 +516,7 @@ class R:
         for i, t in enumerate(p["types"]):
             arm(f"canon:{i}", f"canon_many::<{t.concrete}>(a)")
         arm("canon:resp", f"canon_many::<Response<{M}>>(a)")
+        arm("typename", f"json!({{\"res\": {{\"ok\": std::any::type_name::<{self.ct.replace('::<', '<')}>()}}}})")
         arm("canon:resp_empty", "canon_many::<Response<Empty>>(a)")
 
         for part in p["parts"]:
